@@ -509,7 +509,7 @@ impl Sim {
     fn controller(&mut self, events: &[Ev], now: u64) {
         for e in events {
             if let Ev::Rto { id, ns } = e {
-                self.armed = Some((*id, now + ns));
+                self.armed = Some((*id, now.saturating_add(*ns)));
             }
         }
     }
